@@ -226,9 +226,26 @@ def case_pairs(spec):
                 probs.append("(lon=%.17g, lat=%.17g) depth %d: returned pixel (x=%.2f, y=%.2f) of tile %s, nearest pixel centre is (x=%d, y=%d)" % (lo, la, d, x, y, tuple(tile.pos), ix, iy))
         if len(probs) > 4:
             break
-    r = dict(counters=dict(pair_lookups=n), nontrivial=True, sample=dict(spec=spec))
+    # the same lookups made concurrently from four threads must give what they give one after the other
+    from vlib import threads
+
+    pts = [(R.choice([2, 5, 9, 14]), R.uniform(0.1, 6.1), math.asin(R.uniform(-0.8, 0.8))) for _ in range(12)]
+
+    def pix(d, lo, la):
+        t, x, y = toast.toast_pixel_for_point(d, la, lo, coordsys=cs)
+        return (tuple(t.pos), float(x), float(y))
+
+    def til(d, lo, la):
+        return tuple(toast.toast_tile_for_point(d, la, lo, coordsys=cs).pos)
+
+    calls = [(lambda a=a: pix(*a)) for a in pts] + [(lambda a=a: til(*a)) for a in pts]
+    same = lambda a, b: a == b if not isinstance(a[0], tuple) else (a[0] == b[0] and abs(a[1] - b[1]) < 1e-6 and abs(a[2] - b[2]) < 1e-6)
+    ncalls, bad = threads.concurrent_vs_serial(calls, same, nthreads=4, rounds=2, seed=spec["seed"], budget_s=3.0)
+    if bad:
+        probs.append("%d of %d point lookups made concurrently from 4 threads differ from the same lookups made serially" % (len(bad), ncalls))
+    r = dict(counters=dict(pair_lookups=n, lookups_from_threads=ncalls), nontrivial=True, sample=dict(spec=spec))
     if probs:
-        r.update(status="violation", key="pixel-fit:nearby-positions", detail="; ".join(probs[:4]))
+        r.update(status="violation", key="pixel-fit:nearby-positions" if not bad else "lookup-not-reentrant", detail="; ".join(probs[:4]))
     return r
 
 
